@@ -63,6 +63,35 @@ func VP_C16_At() {
 	sc, ec := append([]int(nil), starts...), append([]int(nil), ends...)
 	idx := NewIndex(starts, ends)
 	vpAssert(vpIntsEq(starts, sc) && vpIntsEq(ends, ec), "NewIndex leaves its arguments alone")
+	// others=k: k further indexes are built (over other intervals) before the
+	// first one is asked anything; an index does not depend on what is built
+	// after it, and the later ones answer by the same rule
+	var others []*Index
+	var ostarts, oends [][]int
+	for o := 0; o < vpCaseOr("others", 0); o++ {
+		os, oe := []int{3, 1, 7, 2}, []int{9, 4, 8, 20}
+		if o%2 == 1 {
+			os, oe = []int{6, 5}, []int{11, 6}
+		}
+		ostarts, oends = append(ostarts, os), append(oends, oe)
+		others = append(others, NewIndex(append([]int(nil), os...), append([]int(nil), oe...)))
+	}
+	defer func() {
+		for o, ix := range others {
+			for oq := -1; oq <= 21; oq++ { // every position around the concrete intervals
+				var w []int
+				for x := range ostarts[o] {
+					if ostarts[o][x] <= oq && oq < oends[o][x] {
+						w = append(w, x)
+					}
+				}
+				vpAssert(vpIntsEq(ix.At(oq), w), "an index built later answers by the same rule")
+			}
+		}
+		if len(others) > 0 {
+			vpReach("others-end")
+		}
+	}()
 	q := vpInt("q")
 	var want []int
 	for x := 0; x < n; x++ {
